@@ -1583,27 +1583,28 @@ static int set_peer_names_attr(struct xcm_socket *s, void *context,
 	return -1;
     }
 
+    struct slist *new_names = slist_split(value, SAN_DELIMITER);
+
+    size_t i;
+    for (i = 0; i < slist_len(new_names); i++) {
+	const char *name = slist_get(new_names, i);
+	if (!xcm_dns_is_valid_name(name)) {
+	    LOG_TLS_INVALID_PEER_NAME(s, name);
+	    slist_destroy(new_names);
+	    errno = EINVAL;
+	    return -1;
+	}
+    }
+
+    /* the old names are dropped only when the new value is accepted */
     if (bts->valid_peer_names != NULL) {
 	slist_destroy(bts->valid_peer_names);
 	bts->valid_peer_names = NULL;
     }
 
-    struct slist *new_names = slist_split(value, SAN_DELIMITER);
-
-    if (slist_len(new_names) > 0) {
-	size_t i;
-	for (i = 0; i < slist_len(new_names); i++) {
-	    const char *name = slist_get(new_names, i);
-	    if (!xcm_dns_is_valid_name(name)) {
-		LOG_TLS_INVALID_PEER_NAME(s, name);
-		slist_destroy(new_names);
-		errno = EINVAL;
-		return -1;
-	    }
-	}
-
+    if (slist_len(new_names) > 0)
 	bts->valid_peer_names = new_names;
-    } else
+    else
 	slist_destroy(new_names);
 
     bts->valid_peer_names_set = true;
